@@ -3,6 +3,7 @@ import Gofasta.Model.Closest
 import Gofasta.Model.Snps
 import Gofasta.Model.Updown
 import Gofasta.Model.Sam
+import Gofasta.Model.Variants
 /-
 The per-column code of the comparison loops, regenerated from the Go source on every run by the go/ast translator
 `cols.go` (harness) into `Gen/Cols.lean`: for `rawDistance`, `snpDistance`, `tn93Distance` the whole loop body as a
@@ -96,6 +97,12 @@ theorem checkArgs_translated (L : Nat) (s e : Int) :
     Bool.false_eq_true, bne_self_eq_false, Bool.or_false, Bool.false_or]
   all_goals (repeat' split) <;> simp_all <;> omega
 
+
+/-- the window filter of `variants.WriteVariants` (which records of a row are printed under start / end), translated from
+the source: the model's `inWindow` -/
+theorem window_filter (start stop : Int) (v : Variant) :
+    variants_WriteVariants start stop v.pos = [inWindow start stop v] := by
+  simp [variants_WriteVariants, inWindow]
 
 /-- not vacuous: the two classes of column that the tests separate -/
 example : closest_rawDistance 136 72 = [1, 1] ∧ closest_rawDistance 136 136 = [0, 1] ∧ closest_rawDistance 136 240 = [0, 0] := by decide
